@@ -99,8 +99,8 @@ theorem C15_unique_terminates (outdir name ext : Bytes) (existing : List Bytes) 
 
 /-- The extensions of the image model are valid. -/
 theorem C15_model_exts_valid : ValidExt Gen.ImageGen.extBmp ∧ ValidExt Gen.ImageGen.extJpeg ∧
-    ∀ bits w h, ValidExt (Image.rawExt bits w h) := by
-  refine ⟨⟨by decide, by decide⟩, ⟨by decide, by decide⟩, ?_⟩
+    ValidExt Gen.ImageGen.extUndecoded ∧ ∀ bits w h, ValidExt (Image.rawExt bits w h) := by
+  refine ⟨⟨by decide, by decide⟩, ⟨by decide, by decide⟩, ⟨by decide, by decide⟩, ?_⟩
   intro bits w h
   refine ⟨?_, by simp [Image.rawExt]; omega⟩
   simp only [Image.rawExt, List.mem_append, not_or, List.mem_singleton]
